@@ -7,15 +7,29 @@ VARIABLE prog
 Param(kd, way, amp, sc) == [kd |-> kd, way |-> way, amp |-> amp, sc |-> sc]
 StmtContexts == {"top", "block", "loop", "then", "else", "elif_then", "elif_else", "elif2", "label"}
 \* the markers the caller has to write for an argument of this kind
-Needed(kd) == CASE kd \in {"value", "word", "aview", "sview"} -> 0 [] kd \in {"sptr", "ptr"} -> 1 [] kd = "pptr" -> 2
+Needed(kd) == CASE kd \in {"value", "word", "aview", "sview", "xaview"} -> 0 [] kd \in {"sptr", "ptr", "xsptr"} -> 1 [] kd = "pptr" -> 2
+\* what a callee can do with a parameter of each kind (a slice pointer handed on bare panics the compiler,
+\* see notes F3; extern callees do not forward to the ordinary g)
+WaysOf(kd) == CASE kd = "aview" -> Ways \cup {"xfwd", "xfwdamp"}
+                \* (`gx(&q)` for q: &[]i32 is legal by the rule but panics the compiler -- finding F3 -- and is
+                \* kept as a cell of MC_Mutability (ctx argxp) only)
+                [] kd = "xaview" -> {"none", "read", "copy", "write", "xfwd", "xfwdamp"}
+                [] kd = "xsptr" -> {"none", "read", "copy", "write", "xfwdamp"}
+                [] OTHER -> Ways
+\* kinds that may share an `extern` signature with an extern kind
+ExternMates == {"value", "ptr", "pptr", "xaview", "xsptr"}
 
-Singles == {<<Param(kd, way, amp, "top")>> : kd \in Kinds, way \in Ways, amp \in 0..2}
-            \cup {<<Param(kd, way, Needed(kd), sc)>> : kd \in Kinds, way \in Ways, sc \in StmtContexts}
+Singles == UNION {{<<Param(kd, way, amp, "top")>> : way \in WaysOf(kd), amp \in 0..2} : kd \in AllKinds}
+            \cup UNION {{<<Param(kd, way, Needed(kd), sc)>> : way \in WaysOf(kd), sc \in StmtContexts} : kd \in AllKinds}
 Pairs   == {<<Param(k1, w1, Needed(k1), "top"), Param(k2, w2, Needed(k2), sc)>> :
                 k1 \in Kinds, k2 \in Kinds, w1 \in {"read", "write"}, w2 \in {"copy", "write", "forward"},
                 sc \in {"top", "elif_then", "elif_else"}}
 
-Init == prog \in Singles \cup Pairs
+XPairs  == UNION {{<<Param(k1, w1, Needed(k1), "top"), Param(k2, w2, Needed(k2), sc)>> :
+                      w1 \in {"read", "write"}, w2 \in WaysOf(k2) \ {"none", "read"}, sc \in {"top", "elif_then"}} :
+                  k1 \in ExternMates, k2 \in ExternKinds}
+
+Init == prog \in Singles \cup Pairs \cup XPairs
 Next == UNCHANGED prog
 
 \* the machine never changes a cell without an address marker on the argument
